@@ -3,7 +3,17 @@ package vbox
 import (
 	"context"
 	"fmt"
+	"sync"
 	"time"
+
+	"github.com/lindb/common/pkg/ltoml"
+	"google.golang.org/grpc/metadata"
+
+	"github.com/lindb/lindb/config"
+	"github.com/lindb/lindb/constants"
+	"github.com/lindb/lindb/internal/concurrent"
+	"github.com/lindb/lindb/internal/linmetric"
+	"github.com/lindb/lindb/metrics"
 
 	"github.com/lindb/lindb/flow"
 	"github.com/lindb/lindb/models"
@@ -49,31 +59,61 @@ func (b *Box) LeafRequest(q string, tr timeutil.TimeRange, node string, shards [
 	return r, nil
 }
 
-// LeafOnce hands one request to the real leaf task processor of `node` and collects every response it
-// sends: it waits up to `horizon` for the first one and `quiet` for further ones (a duplicate response
-// would arrive right after the first: both come from the completion of one pipeline).
-func (b *Box) LeafOnce(node string, req *protoCommonV1.TaskRequest, horizon, quiet time.Duration) (resps []*protoCommonV1.TaskResponse, processErr error) {
-	st := &stream{ch: make(chan *protoCommonV1.TaskResponse, 8)}
+// LeafOnce hands one request to the real rpc task handler (query.TaskHandler.Handle: worker pool, leaf task
+// processor, the handler's own error / panic answers) of `node` and collects every response sent on the stream:
+// it waits up to `horizon` for the first one and `quiet` for further ones (a duplicate response arrives right
+// after the first: both come from the completion of one request).
+func (b *Box) LeafOnce(node string, req *protoCommonV1.TaskRequest, horizon, quiet time.Duration) (resps []*protoCommonV1.TaskResponse) {
+	ctx, cancel := context.WithCancel(metadata.NewIncomingContext(context.Background(),
+		metadata.Pairs(constants.RPCMetaKeyLogicNode, "10.0.0.100:9000")))
+	st := &reqStream{stream: stream{ch: make(chan *protoCommonV1.TaskResponse, 8)}, ctx: ctx, reqs: make(chan *protoCommonV1.TaskRequest, 1)}
 	n := &models.StatefulNode{StatelessNode: parseNode(node), ID: 1}
-	proc := query.NewLeafTaskProcessor(n, b.Engine, &serverFactory{s: st})
-	ctx, cancel := context.WithTimeout(context.Background(), horizon+time.Second)
-	defer cancel()
-	tctx := flow.NewTaskContextWithTimeout(ctx, horizon)
-	if err := proc.Process(tctx, st, req); err != nil {
-		return nil, err
-	}
+	fct := &serverFactory{s: &st.stream}
+	proc := query.NewLeafTaskProcessor(n, b.Engine, fct)
+	leafPoolOnce.Do(func() {
+		leafPool = concurrent.NewPool("task-pool", 4, time.Minute, metrics.NewConcurrentStatistics("vbox-leaf", linmetric.StorageRegistry))
+	})
+	cfg := config.Query{QueryConcurrency: 4, IdleTimeout: ltoml.Duration(time.Minute), Timeout: ltoml.Duration(horizon)}
+	h := query.NewTaskHandler(cfg, fct, proc, leafPool)
+	done := make(chan struct{})
+	go func() { defer close(done); _ = h.Handle(st) }()
+	defer func() { cancel(); <-done }()
+	st.reqs <- req
 	select {
 	case r := <-st.ch:
 		resps = append(resps, r)
 	case <-time.After(horizon):
-		return nil, nil
+		return nil
 	}
 	for {
 		select {
 		case r := <-st.ch:
 			resps = append(resps, r)
 		case <-time.After(quiet):
-			return resps, nil
+			return resps
 		}
+	}
+}
+
+var (
+	leafPool     concurrent.Pool
+	leafPoolOnce sync.Once
+)
+
+// reqStream is the server side of one task stream: Recv delivers the queued requests, then fails when the
+// stream's context is cancelled (client gone).
+type reqStream struct {
+	stream
+	ctx  context.Context
+	reqs chan *protoCommonV1.TaskRequest
+}
+
+func (s *reqStream) Context() context.Context { return s.ctx }
+func (s *reqStream) Recv() (*protoCommonV1.TaskRequest, error) {
+	select {
+	case r := <-s.reqs:
+		return r, nil
+	case <-s.ctx.Done():
+		return nil, s.ctx.Err()
 	}
 }
